@@ -1,15 +1,6 @@
-"""Per-property configuration of /verif/check (see DESIGN.md §6 for the reasoning per property)."""
+from props._common import COMMON_TB
 
-COMMON_TB = [
-    "Lean 4.33.0 kernel (thorough tier: leanchecker on the property module)",
-    "axioms: subset of {propext, Classical.choice, Quot.sound} as printed per run in coverage.axioms_used",
-    "correspondence harness /verif/harness (Rust, links the real abra_core/utils by path) and its generators",
-    "Lean line-protocol driver /verif/lean/Main.lean",
-]
-
-PROPS = {}
-
-PROPS["C15"] = dict(
+PROP = dict(
     title="Integer arithmetic is exact or fails with the documented error",
     lean_module="AbraProofs.Properties.C15",
     required_theorems=["C15_add_spec", "C15_sub_spec", "C15_mul_spec", "C15_neg_spec", "C15_div_spec",
@@ -34,8 +25,3 @@ PROPS["C15"] = dict(
     technique="Lean 4 theorems (omega/induction) over a hand-written Int model + differential correspondence against the real VM",
 )
 
-# reasons for properties not (yet) claimed; default text is in gen_manifest.py
-NOT_APPLICABLE = {}
-
-# cfg-guarded hook commits in /repo (none needed so far: every observable used is public API)
-HOOK_COMMITS = []
